@@ -133,7 +133,7 @@ def strip_instr_plate(v):
 
 
 PROFILE = {'weights': {'transfer': 6, 'container': 2, 'plate': 1, 'remove': 1, 'fill_to': 1, 'slice': 1},
-           'q_modes': ['frac'] * 8 + ['whole', 'over', 'zero'], 'self_transfer': False,
+           'q_modes': ['frac'] * 8 + ['whole', 'over', 'zero'], 'self_transfer': False, 'initial_slices': 1,
            # lists may name a well twice: whatever that means well by well, nothing may be created or lost
            'dup_wells': True}
 
